@@ -1258,6 +1258,11 @@ class Engine:
         return V(BOOL, conj[0] if len(conj) == 1 else z3.And(*conj))
 
     def compare(self, op, a, b, st, node):
+        if isinstance(op, (ast.Eq, ast.NotEq)) and not self.spec_mode:
+            hook = getattr(self.world, 'value_eq_hook', None)
+            r = hook(self, a, b, node) if hook else None
+            if r is not None:
+                return r if isinstance(op, ast.Eq) else z3.Not(r)
         if isinstance(op, (ast.Eq, ast.Is)):
             return self.eq(a, b, node)
         if isinstance(op, (ast.NotEq, ast.IsNot)):
